@@ -134,7 +134,7 @@ def cmd_run(ids, tier, props):
             for prop in plist:
                 t0 = time.monotonic()
                 env = dict(os.environ, VERIF_REPO=wt, VERIF_EVIDENCE_DIR=os.path.join(SCRATCH, "evidence"),
-                           VERIF_SKIP_MUTANT_REPLAYS="1")
+                           VERIF_SKIP_MUTANT_REPLAYS="1", VERIF_FOUND_DIR=os.path.join(SCRATCH, "found"))
                 rc, out = sh([PY, os.path.join(ROOT, "run.py"), prop, "--tier", tier], cwd=ROOT, env=env, timeout=7200)
                 wall = time.monotonic() - t0
                 vio = [ln for ln in out.splitlines() if ln.startswith("VIOLATION")]
@@ -170,6 +170,19 @@ def main():
         return 2
     if a[0] == "import":
         return cmd_import(*a[1:])
+    if a[0] == "report":
+        sroot = os.path.join(ROOT, "seeded")
+        print("| seed | changed | caught by (tier: verdict, seconds) |")
+        print("|---|---|---|")
+        for sid in sorted(os.listdir(sroot)):
+            mp = os.path.join(sroot, sid, "meta.json")
+            if not os.path.exists(mp):
+                continue
+            meta = json.load(open(mp))
+            files = ", ".join(ln.split("|")[0].strip() for ln in meta.get("files_changed", []) if "|" in ln)
+            res = "; ".join(f"{k}: {v['verdict']} ({v['wall_s']}s)" for k, v in sorted(meta.get("checks", {}).items()))
+            print(f"| {sid} | {files} | {res} |")
+        return 0
     if a[0] == "run":
         tier, props, ids = "quick", None, []
         it = iter(a[1:])
